@@ -3,6 +3,8 @@ CONSTANTS
   MaxLayout = 3
   MaxFailures = 2
   DrainOnSuccess = FALSE
+  SkipUnchanged = FALSE
+  Strategy = "MASTER"
 INVARIANTS BoundedRounds TriggerKept
 PROPERTIES Converges NoLostTrigger QuitEnds
 CHECK_DEADLOCK FALSE
